@@ -349,6 +349,9 @@ class CallMixin:
                             return self.inline_property_spec(mod, owner, m, v, st)
                         return self.call_function(f"{mod.dotted}:{owner}.{attr}", [v], {}, st, node)
                     return [(st, SV(CONST, None, None, extra=("method", f"{mod.dotted}:{owner}.{attr}", v)))]
+            extm = self.reg.funs.get(f"ext:{t.cls}.{attr}")
+            if extm is not None:
+                return [(st, SV(CONST, None, None, extra=("extmethod", extm.target, v)))]
             fd = self.field_decl(t.cls, attr)
             if fd is None:
                 # class-level constant?
@@ -363,7 +366,10 @@ class CallMixin:
         if isinstance(t, TConst):
             ex = v.extra
             if isinstance(ex, tuple) and ex[0] == "external":
-                return [(st, SV(CONST, None, None, extra=("external", f"{ex[1]}.{attr}")))]
+                dotted = f"{ex[1]}.{attr}"
+                if dotted in self.reg.ext_consts:
+                    return [(st, mk_const(self.reg.ext_consts[dotted]))]
+                return [(st, SV(CONST, None, None, extra=("external", dotted)))]
             if isinstance(ex, tuple) and ex[0] == "class":
                 modn, cname = ex[1], ex[2]
                 m = loader.load(modn, self.repo)
@@ -496,11 +502,17 @@ class CallMixin:
             return [(st, self.call_specfun(ex[1], args, st, node))]
         if kind == "external":
             return self.call_external(ex[1], args, kwargs, st, node)
+        if kind == "extmethod":
+            fs = self.reg.funs[ex[1]]
+            return self.call_contract(fs, [ex[2]] + args, kwargs, st, node, params=fs.types.get("__params__"))
         if kind == "attr":
             # attribute of an external object, e.g. re.escape -> ("attr", external re, "escape")
             base = ex[1]
             if isinstance(base.extra, tuple) and base.extra[0] == "external":
                 return self.call_external(f"{base.extra[1]}.{ex[2]}", args, kwargs, st, node)
+            if isinstance(base.extra, tuple) and base.extra[0] == "opaque-const":
+                # method of an unmodelled module constant (e.g. a compiled regex): assumed contract by name
+                return self.call_external(f"{base.extra[1]}.{base.extra[2]}.{ex[2]}", args, kwargs, st, node)
         raise EngineError(f"unsupported callee: {ast.unparse(node)}")
 
     def call_external(self, name, args, kwargs, st, node):
@@ -675,9 +687,8 @@ class CallMixin:
         s2.store = dict(zip(sf.params, args))
         s2.spec = True
         s2.frame = st.frame
+        s2.pc = st.pc  # shared list: facts generated while evaluating (char ranges, unfoldings) flow back
         r = self.evs(expr, s2)
-        # facts generated while evaluating (char ranges etc.) flow back
-        st.pc = s2.pc
         return r
 
     def bool_specfuns(self):
@@ -744,7 +755,10 @@ class CallMixin:
 
 
 def st_module_of(engine, key):
-    return loader.load(key.split(":")[0], engine.repo)
+    try:
+        return loader.load(key.split(":")[0], engine.repo)
+    except (FileNotFoundError, OSError):
+        return None  # pseudo-class of an external library (fields declared in the contracts only)
 
 
 def _is_doc(s):
